@@ -1,3 +1,4 @@
+-- properties: C04 C11
 /-
   C04 / C11 — the CAF container (SfModel/Caf.lean), sample-granular encodings.  Property theorems only
   (helpers: SfProofs/CafBytes.lean, CafImage.lean, CafSession.lean).
